@@ -6,7 +6,7 @@ ASSUME = [
     'real StackAllocator over a buffer whose capacity (0..needed) is symbolic',
     'rejection loops are memoryless (an iteration reads nothing an earlier one wrote except the engine) and are followed for 3 iterations; deeper paths are outside '
     'the bound (counted in the evidence)',
-    'covered models: Klein-Nishina, e+ annihilation (EPlusGG).  NOT covered: Livermore PE / relaxation, Rayleigh, Bethe-Heitler, Moller-Bhabha, Seltzer-Berger, '
+    'covered models: Klein-Nishina, e+ annihilation (EPlusGG), and the shared ionisation final-state helper (not the Moller/Bhabha/MuHad energy samplers).  NOT covered: Livermore PE / relaxation, Rayleigh, Bethe-Heitler, Moller-Bhabha, Seltzer-Berger, '
     'relativistic/combined brems, Coulomb/Wentzel, muon/hadron ionisation and bremsstrahlung, neutron elastic; momentum balance of Klein-Nishina and unit-norm directions',
     'energy ranges "photon energy in (0,E]" need transcendental bounds and are only attempted in the thorough tier (may stay undecided)',
 ]
@@ -21,6 +21,14 @@ OBLS = [
         timeout=40, bounds='rejection loop <= 3 iterations; in flight decided at a witness point, the general in-flight queries stay undecided', defines=('VERIF_CUT_ROTATE', 'VERIF_MOMENTUM'),
         precut={'_ZN9celeritas6rotateIdEENS_5ArrayIT_Lm3EEERKS3_S5_': 'stub_rotate',
                 '_ZNK9celeritas22ReciprocalDistributionIdEclIN12_GLOBAL__N_17StubRngEEEdRT_': 'stub_recip'}, known=['F9'], **O),
+    Obl('C04.IONI', 'C04/ioni.cc', 'obl_c04_ioni_final_state', 'B', 'detail::IoniFinalStateHelper (final state of Moller/Bhabha and muon/hadron ionisation) for every projectile mass >= m_e, '
+        'energy and knock-on energy W <= W_max: energy balance, electron forward with cos(theta) <= 1, |p_inc - p_e| = p(T - W) > 0',
+        timeout=120, defines=(), precut={'_ZN9celeritas6rotateIdEENS_5ArrayIT_Lm3EEERKS3_S5_': 'stub_rotate'},
+        mode='real', validate=False, opts={'separate_asserts': True, 'inproc_ms': 3000}),
+    Obl('C04.MB/moller', 'C04/ioni.cc', 'obl_c04_moller_fraction', 'B', 'MollerEnergyDistribution: sampled fraction in [cutoff/T, 1/2] for every draw', timeout=60,
+        bounds='rejection loop <= 3 iterations', **O),
+    Obl('C04.MB/bhabha', 'C04/ioni.cc', 'obl_c04_bhabha_fraction', 'B', 'BhabhaEnergyDistribution: sampled fraction in [cutoff/T, 1] for every draw', timeout=60,
+        bounds='rejection loop <= 3 iterations', **O),
     Obl('C04.KN+', H, 'obl_c04_klein_nishina', 'B', 'KleinNishina: additionally outgoing photon energy in (0,E], non-negative energies', timeout=900, tier='thorough',
         defines=('VERIF_POSITIVITY',), **O),
     Obl('C04.EPGG+', H, 'obl_c04_eplusgg', 'B', 'EPlusGG: additionally both photon energies positive', timeout=900, tier='thorough', defines=('VERIF_POSITIVITY',), **O),
